@@ -186,7 +186,7 @@ class Run:
             i = self.mk(a, ("arg", n), "arg")
             r = regs[a]
             if r not in (None, "?") and r != zero:
-                self.R[r] = (("arg", n), "entry")
+                self.R[r] = (("arg", n), "entry", None)
         self.ev = 0
         self.block(ops)
 
@@ -213,12 +213,12 @@ class Run:
         if reg == "?":
             return term
         if reg == self.zero:
-            got, writer = ("c", 0), "hardwired-zero"
+            got, writer, wvid = ("c", 0), "hardwired-zero", None
         else:
-            got, writer = self.R.get(reg, (("init", reg), "entry"))
+            got, writer, wvid = self.R.get(reg, (("init", reg), "entry", None))
         if got != term:
             self.mism.append({"event": self.ev, "reader": opname, "operand": slot, "value": vid, "register": reg,
-                              "expected": term, "found": got, "written_by": writer})
+                              "expected": term, "found": got, "written_by": writer, "writer_value": wvid})
         return term
 
     def write(self, inst, wreg, opname):
@@ -228,7 +228,7 @@ class Run:
             return
         if wreg == "?" or wreg == self.zero:
             return
-        self.R[wreg] = (self.insts[inst][1], opname)
+        self.R[wreg] = (self.insts[inst][1], opname, self.insts[inst][0])
 
     def block(self, ops):
         for op in ops:
@@ -268,7 +268,7 @@ class Run:
                 elif reg == self.zero:
                     t = ("c", 0)
                 else:
-                    t = self.R.get(reg, (("init", reg), "entry"))[0]
+                    t = self.R.get(reg, (("init", reg), "entry", None))[0]
                 self.getreg[res] = t
                 self.mk(res, t, name)
                 self.ev += 1
@@ -475,7 +475,7 @@ def _facts(struct):
     for x in struct[0]:
         defop[x] = "arg"
     walk(struct, 0)
-    return uses, defop, role, dup[0], exotic[0], usedepth
+    return uses, defop, role, dup[0], exotic[0], usedepth, defdepth
 
 
 def judge(target, strategy, s_before, regs_before, s_after, regs_after, allowed, infinite, reserved, zero):
@@ -486,7 +486,7 @@ def judge(target, strategy, s_before, regs_before, s_after, regs_after, allowed,
     pre = [r is not None for r in regs_before]
     if not same:
         pre = [False] * len(regs_after)
-    uses, defop, role, _, exotic, usedepth = _facts(s_after)
+    uses, defop, role, _, exotic, usedepth, defdepth = _facts(s_after)
     has_for = _has_for(s_after)
     Ks = (0, 1, 2) if has_for else (0,)
     pre_regs = {r for r in regs_before if r not in (None, "?")}
@@ -506,6 +506,8 @@ def judge(target, strategy, s_before, regs_before, s_after, regs_after, allowed,
             return "register-of-unused-get_register"
         if reg in pre_regs:
             used = [h for h in holders.get(reg, ()) if uses.get(h)]
+            if used and all(defdepth.get(h, 0) >= 1 for h in used):
+                return "preallocated-register-defined-in-loop-body"
             if used and all(usedepth.get(h, 0) >= 1 for h in used):
                 return "preallocated-register-used-only-in-loop-body"
             return "preallocated-register-reused"
@@ -565,7 +567,13 @@ def judge(target, strategy, s_before, regs_before, s_after, regs_after, allowed,
             d = dict(m)
             d["expected"], d["found"] = _term_str(m["expected"]), _term_str(m["found"])
             d["K"] = K
-            c = cause(m["register"], "read-of-" + role.get(m["value"], "value-defined-outside"))
+            rclass = "read-of-" + role.get(m["value"], "value-defined-outside")
+            wv = m.get("writer_value")
+            if role.get(m["value"]) == "for.init" and wv is not None and defdepth.get(wv, 0) == 0 \
+                    and role.get(wv) is None:
+                # the loop's init value was overwritten by a plain top-level op (not by the loop itself)
+                rclass = "read-of-for.init-overwritten-outside-the-loop"
+            c = cause(m["register"], rclass)
             out.append((f"C19|{target}|{mid}|clobbered-live-value|{c or wr}",
                         f"{m['reader']} reads {m['register']} expecting {d['expected']} but the register holds "
                         f"{d['found']} (written by {wr})", d))
@@ -582,8 +590,8 @@ def judge(target, strategy, s_before, regs_before, s_after, regs_after, allowed,
             ra, rb_ = role.get(a[0]), role.get(b[0])
             if role.get(a[7]) == "for.carried" and rb_ == "for.body":
                 lc = "carried-value-read-after-next-value-defined"
-            elif ra == "for.init":
-                lc = "init-operand-live-across-loop"
+            elif ra == "for.init" and defdepth.get(b[0], 0) >= 1:
+                lc = "init-operand-live-across-loop"        # collides with a value of the loop itself
             else:
                 lc = f"{ra or 'outside'}~{rb_ or 'outside'}"
             c = cause(a[2], lc)
@@ -1046,6 +1054,73 @@ def prenest_programs(cfg):
                             yield (args, tuple(ops) + (loop,), tuple(live))
 
 
+def forpre_programs(cfg):
+    """A loop with one loop-carried value whose init is defined first, then 0..2 binary ops whose operands are
+    function arguments / earlier temporaries (so that they need fresh registers above the loop), then the loop
+    (lb, ub: distinct values among the three most recent non-init values; body: addi of the carried value)."""
+    nargs = cfg["forpre_args"]
+    args = ("u",) * nargs
+    for init_op in (("li", 5, None), ("addi", nargs - 1)):
+        init = nargs
+        for nmid in cfg["forpre_mid"]:
+            def mids(avail, todo):
+                if not todo:
+                    yield ()
+                    return
+                for x in avail:
+                    for y in avail:
+                        if x <= y:
+                            nxt = max(max(avail), init) + 1
+                            for rest in mids(avail + [nxt], todo - 1):
+                                yield (("add", x, y),) + rest
+            for mid in mids(list(range(nargs)) + [init], nmid):
+                nv = nargs + 1 + nmid                  # values defined before the loop
+                others = [v for v in range(nv) if v != init][-3:]
+                car, bres, res = nv + 1, nv + 2, nv + 3
+                for lb in others:
+                    for ub in others:
+                        if lb == ub:
+                            continue
+                        loop = ("for", lb, ub, None, init, ((("addi", car),), bres))
+                        for ret in ((), (res,)):
+                            yield (args, (init_op,) + mid + (loop,), ret)
+
+
+def getreg_in_body_programs(cfg):
+    """A get_register with an allocated type INSIDE a loop body (depth 1 or 2), consumed by an inner loop op (as ub,
+    lb or step: no register effects) and / or by a plain op, with k values live across the nest."""
+    args = ("u", "u")
+    lo, hi = 0, 1
+    for reg in cfg["body_regs"]:
+        for depth in (1, 2):
+            for consumer in ("inner-ub", "inner-lb", "inner-step", "plain", "inner-ub+plain"):
+                for k in cfg["pressure"]:
+                    ops = [("getreg", None)] * k
+                    live = list(range(2, 2 + k))
+                    cur = 2 + k
+                    # ids: every loop takes iv, placeholder, body values..., placeholder
+                    ivs = []
+                    for _ in range(depth):
+                        ivs.append(cur)
+                        cur += 2
+                    n = cur                                   # the pre-allocated get_register
+                    body = [("getreg", reg)]
+                    cur += 1
+                    if "plain" in consumer:
+                        body.append(("addi", n))
+                        cur += 1
+                    if "inner" in consumer:
+                        iv_i = cur
+                        ibody = ((("addi", iv_i),), None)
+                        lb, ub, step = {"inner-ub": (lo, n, None), "inner-ub+plain": (lo, n, None),
+                                        "inner-lb": (n, hi, None), "inner-step": (lo, hi, n)}[consumer]
+                        body.append(("for", lb, ub, step, None, ibody))
+                    loop = ("for", lo, hi, None, None, (tuple(body), None))
+                    if depth == 2:
+                        loop = ("for", lo, hi, None, None, ((loop,), None))
+                    yield (args, tuple(ops) + (loop,), tuple(live))
+
+
 def rets(info, cfg):
     """Return-operand choices: every subset of size <= cfg['ret_max'] (increasing index order)."""
     n = len(info)
@@ -1158,7 +1233,8 @@ def _shard(task) -> Stats:
     n = 0
     idx = -1
     if cfg.get("family"):
-        gen = nest_programs(cfg) if cfg["family"] == "nest" else prenest_programs(cfg)
+        gen = {"nest": nest_programs, "prenest": prenest_programs, "forpre": forpre_programs,
+               "getreg-in-body": getreg_in_body_programs}[cfg["family"]](cfg)
         for prog in gen:
             idx += 1
             if idx % parts != part:
@@ -1338,6 +1414,12 @@ def configs(quick: bool):
             ("rv-prenest", dict(rv, family="prenest", args=(), nops=9, **{"for": True},
                                 pre_args=(("a0",), ("a1",), ("a0", "a1")), pressure=(0, 1, 2, 3, 4, 5), parts=4,
                                 modes=(("npool", 4), ("npool", 6), ("npool", 8), ("npool", 10)))),
+            ("rv-forpre", dict(rv, family="forpre", args=(), nops=9, **{"for": True}, forpre_args=2,
+                               forpre_mid=(0, 1, 2), parts=8,
+                               modes=(("npool", 4), ("npool", 5), ("npool", 6), ("pass", "default")))),
+            ("rv-getreg-in-body", dict(rv, family="getreg-in-body", args=(), nops=9, **{"for": True},
+                                       body_regs=("t0", "a0", "t1", "a1"), pressure=(0, 1, 2, 3, 4, 5), parts=4,
+                                       modes=(("npool", 4), ("npool", 6), ("npool", 8), ("npool", 10)))),
             ("x86", dict(x86, args=((), ("u",), ("rdi",), ("rdi", "rsi")), nops=3, nops_by_args={(): 4},
                          x86_addi=False, modes=(("pool", 2), ("pool", 3), ("pass", "default")), parts=2)),
         ]
@@ -1366,6 +1448,15 @@ def configs(quick: bool):
                             pressure=(0, 1, 2, 3, 4, 5, 6, 7), parts=8,
                             modes=(("npool", 3), ("npool", 4), ("npool", 5), ("npool", 6), ("npool", 7),
                                    ("npool", 8), ("npool", 9), ("npool", 10), ("pass", "default")))),
+        ("rv-forpre", dict(rv, family="forpre", args=(), nops=9, **{"for": True}, forpre_args=3,
+                           forpre_mid=(0, 1, 2), parts=24,
+                           modes=(("npool", 4), ("npool", 5), ("npool", 6), ("npool", 7), ("npool", 8),
+                                  ("pass", "default")))),
+        ("rv-getreg-in-body", dict(rv, family="getreg-in-body", args=(), nops=9, **{"for": True},
+                                   body_regs=("t0", "a0", "t1", "a1", "t2", "a2"),
+                                   pressure=(0, 1, 2, 3, 4, 5, 6, 7), parts=8,
+                                   modes=(("npool", 3), ("npool", 4), ("npool", 5), ("npool", 6), ("npool", 7),
+                                          ("npool", 8), ("npool", 9), ("npool", 10), ("pass", "default")))),
         ("x86", dict(x86, args=ARGS_X86, nops=3, nops_by_args={(): 4, ("u",): 4, ("rdi",): 4}, parts=6)),
     ]
 
